@@ -13,6 +13,10 @@
     CPython (the same process, natively) supplies what "imports normally" means for a module
     (importable?, names bound by `from m import *`, attribute present?); spec/ImportTrace.tla
     decides.  The allow-list is read from the code under test at run time.
+Round 3: the eval / exec routes carry namespace arguments (eval(text[, globals[, locals]]): 20 forms, ImportCore!NsForms)
+    at module level and inside a function - for import statements (the recording says in which mapping the names were
+    bound: ImportCore!Place), for the excluded names, and for print / log.* calls (ImportCore!NameResolves);
+    (M2) spec/ImportNames.tla model-checks the name look-up of the evaluator eval / exec set up over those routes.
 """
 import copy
 import json
@@ -77,9 +81,55 @@ SCOPES = ["module", "func", "class", "listcomp", "eval", "exec", "lambda", "comp
           # further places a plain name can be read from
           "nested-func", "method", "class-in-func", "dictcomp", "setcomp", "func-default", "call-arg", "exec-in-func"]
 
+# namespace arguments of eval / exec (ImportCore!NsForms): eval(text[, globals[, locals]])
+NS_NONE = {"g": "-", "l": "-"}
+NS_EXPLICIT = [{"g": g, "l": l} for g in ("empty", "data", "globals", "copy") for l in ("-", "empty", "data", "same", "locals")]
+NS_FORMS = [NS_NONE] + NS_EXPLICIT
+# "copy": a copy of the script's table; the helper names are overwritten so that repeated use does not nest copy in copy
+G_EXPR = {"empty": "{}", "data": "{'x_zz': 1}", "globals": "globals()", "copy": "dict(globals(), _g17=0, _l17=0)"}
+L_EXPR = {"empty": "{}", "data": "{'y_zz': 2}", "same": "_g17", "locals": "locals()"}
+HELPERS = {"_g17", "_l17", "_v", "_r", "_f", "_e", "_q", "x_zz", "y_zz", "__builtins__"}
+NS_VIAS = ("exec", "evalexec", "funcexec")        # routes that take namespace arguments and can bind names
+
+
+def ns_key(ns):
+    return ns["g"] + "/" + ns["l"]
+
+
+def ns_arity(ns):
+    return "none" if ns["g"] == "-" else ("globals" if ns["l"] == "-" else "globals+locals")
+
+
+def ns_lines(fn, text, ns, ind="", assign=""):
+    """source lines of the call fn(text[, globals[, locals]]); the mappings passed are kept in _g17 / _l17"""
+    if ns["g"] == "-":
+        return [ind + assign + "%s(%r)" % (fn, text)]
+    out = [ind + "_g17 = " + G_EXPR[ns["g"]]]
+    args = "_g17"
+    if ns["l"] != "-":
+        out.append(ind + "_l17 = " + L_EXPR[ns["l"]])
+        args += ", _l17"
+    out.append(ind + assign + "%s(%r, %s)" % (fn, text, args))
+    return out
+
 
 # ------------------------------------------------------------------------------------------------
 # statements
+NS_SCOPES = ("eval-ns", "exec-ns", "evaleval-ns", "func-eval-ns")
+
+
+def ns_builtin_src(cs):
+    """the plain name evaluated by text that eval / exec runs with namespace arguments"""
+    n, ns = cs["name"], cs["ns"]
+    if cs["scope"] == "eval-ns":
+        return "\n".join(ns_lines("eval", n, ns, assign="_r = "))
+    if cs["scope"] == "exec-ns":
+        return "\n".join(ns_lines("exec", "_r = %s" % n, ns))
+    if cs["scope"] == "evaleval-ns":
+        return "\n".join(ns_lines("eval", "eval(%r)" % n, ns, assign="_r = "))
+    return "def _f():\n" + "\n".join(ns_lines("eval", n, ns, ind="    ", assign="return ")) + "\n_r = _f()"
+
+
 def clause(mod, asname="-", name="-"):
     return {"mod": mod, "parts": mod.split("."), "as": asname, "name": name}
 
@@ -94,14 +144,20 @@ def stmt_text(cs):
 def wrap(cs):
     s = stmt_text(cs)
     via = cs["via"]
+    ns = cs.get("ns", NS_NONE)
     if via == "direct":
         return s
     if via == "exec":
-        return "exec(%r)" % s
+        return "\n".join(ns_lines("exec", s, ns))
     if via == "eval":
-        return "_v = eval(%r)" % s
+        return "\n".join(ns_lines("eval", s, ns, assign="_v = "))
     if via == "evalexec":
-        return "_v = eval(%r)" % ("exec(%r)" % s)
+        return "\n".join(ns_lines("eval", "exec(%r)" % s, ns, assign="_v = "))
+    if via == "funcexec":
+        # exec called inside a function body with explicit namespaces; the function hands the mappings back
+        pre = ns_lines("exec", s, ns, ind="    ")
+        return ("def _f():\n    _l17 = None\n" + "\n".join(pre[:-1]) + "\n    try:\n    " + pre[-1] +
+                "\n    except Exception as _e:\n        return [type(_e).__name__, _g17, _l17]\n    return ['ok', _g17, _l17]\n_r = _f()\n")
     body = ("def _f():\n    try:\n        %s\n    except Exception as _e:\n        return [type(_e).__name__, dict(locals())]\n"
             "    return ['ok', dict(locals())]\n_r = _f()\n") % s
     return ("@pyscript_compile\n" if via == "compiled" else "") + body
@@ -120,21 +176,36 @@ def form_name(cs):
     return "from %s import b%s%s" % (mod, " as c" if c["as"] != "-" else "", ", d" if len(cs["clauses"]) > 1 else "")
 
 
-def mk(form, clauses, via, ctx="file"):
-    return {"kind": "import", "form": form, "clauses": clauses, "via": via, "ctx": ctx}
+def mk(form, clauses, via, ctx="file", ns=None):
+    return {"kind": "import", "form": form, "clauses": clauses, "via": via, "ctx": ctx, "ns": dict(ns or NS_NONE)}
 
 
-def statements_for(mod, vias, attr="nm_zz", star=True, ctx="file"):
+def statements_for(mod, vias, attr="nm_zz", star=True, ctx="file", ns=None):
     out = []
     for via in vias:
-        out.append(mk("import", [clause(mod)], via, ctx))
-        out.append(mk("import", [clause(mod, "x_al")], via, ctx))
+        out.append(mk("import", [clause(mod)], via, ctx, ns))
+        out.append(mk("import", [clause(mod, "x_al")], via, ctx, ns))
         if mod == "__future__":
             continue            # `from __future__ import x` is a compiler directive, not a module import
-        out.append(mk("from", [clause(mod, "-", attr)], via, ctx))
-        out.append(mk("from", [clause(mod, "c_al", attr)], via, ctx))
+        out.append(mk("from", [clause(mod, "-", attr)], via, ctx, ns))
+        out.append(mk("from", [clause(mod, "c_al", attr)], via, ctx, ns))
         if star and via not in ("func", "compiled"):
-            out.append(mk("from", [clause(mod, "-", "*")], via, ctx))
+            out.append(mk("from", [clause(mod, "-", "*")], via, ctx, ns))
+    return out
+
+
+def ns_statements(r, names, slots, allow_all=False):
+    """every name x all statement forms x routes with namespace arguments; the 20 argument forms rotate over the
+    (name, route, slot) positions so that every (route, form) pair meets refused, allowed and shadowing names"""
+    out = []
+    q = r.randrange(len(NS_EXPLICIT))
+    for n in names:
+        ctx = "app" if (n in PYS and PYS[n][1] == "app") else "file"
+        for via, cnt in slots:
+            for _ in range(cnt):
+                out += statements_for(n, [via], ctx=ctx, ns=NS_EXPLICIT[q % len(NS_EXPLICIT)])
+                q += 1
+        q += 1          # 20 forms, an even number of positions per name: shift so that the rotation does not lock
     return out
 
 
@@ -192,6 +263,26 @@ def gen_cases(ctx, allow, allow_all):
         for m in ("math", "json", "pk", "homeassistant.const"):
             for via in ("direct", "exec"):
                 cases.append(mk("from", [clause(m, "-", "nosuch_attr_zz")], via))
+        # eval / exec with namespace arguments (globals, globals + locals; fresh, filled, the script's own, a copy, the same
+        # mapping twice, locals()), at module level and inside a function: every allow-listed and shadowing name, a seeded
+        # sample of refused installed names, near-misses and submodules
+        refused_pool = [n for n in names if n not in allow and n not in PYS]
+        ns_names = (sorted(allow) + sorted(PYS) + sorted(r.sample(refused_pool, ctx.pick(12, 80))) +
+                    r.sample(near_misses(allow), 3) + r.sample(SUBMODULES, 3))
+        cases += ns_statements(r, ns_names, ctx.pick((("exec", 3), ("evalexec", 2), ("funcexec", 2), ("eval", 1)),
+                                                     (("exec", 6), ("evalexec", 4), ("funcexec", 4), ("eval", 2))))
+        k = 0
+        for a, b in [("math", "os"), ("os", "math"), ("pk", "subprocess")]:
+            for via in NS_VIAS:
+                for _ in range(2):
+                    cases.append(mk("import", [clause(a, "m1"), clause(b, "m2")], via, ns=NS_EXPLICIT[(k * 7 + 1) % len(NS_EXPLICIT)]))
+                    cases.append(mk("import", [clause(a), clause(b)], via, ns=NS_EXPLICIT[(k * 7 + 4) % len(NS_EXPLICIT)]))
+                    k += 1
+        for j, (m, a) in enumerate(STUBS):
+            for i, via in enumerate(NS_VIAS):
+                nsf = NS_EXPLICIT[(j * 3 + i * 7) % len(NS_EXPLICIT)]
+                cases.append(mk("from", [clause(m, "-", a)], via, ns=nsf))
+                cases.append(mk("from", [clause(m, "-", "*")], via, ns=nsf))
     else:
         pool = [n for n in names if n not in SKIP_IMPORT and n not in PYS and not n.startswith("_test") and not n.startswith("pytest")]
         sample = r.sample(pool, min(len(pool), ctx.pick(36, 10000)))
@@ -207,6 +298,8 @@ def gen_cases(ctx, allow, allow_all):
             cases.append(mk("from", [clause(m, "-", a)], "direct"))
         for a, b in [("math", "os"), ("nosuch_mod_zz", "math")]:
             cases.append(mk("import", [clause(a), clause(b)], "direct"))
+        cases += ns_statements(r, sorted(r.sample(sample, min(len(sample), ctx.pick(5, 40)))) + sorted(allow)[:3] + ["json", "pk.sub"],
+                               (("exec", 2), ("evalexec", 1), ("funcexec", 1)), allow_all=True)
     for i, c in enumerate(cases):
         c["allow_all"] = allow_all
         c["id"] = "%s%d" % ("T" if allow_all else "F", i)
@@ -347,7 +440,31 @@ def work(job):
                 g = gc.global_sym_table
                 new = {k: v for k, v in g.items() if k not in before or before[k] is not v}
                 leak = []
-                if cs["via"] in ("func", "compiled"):
+                ns = cs.get("ns", NS_NONE)
+                if ns["g"] != "-":
+                    # namespace arguments: what is new in the script's table, in the globals mapping, in the locals mapping
+                    # passed (by object identity; a mapping that is the script's table counts as "script")
+                    if cs["via"] == "funcexec":
+                        r = new.get("_r")
+                        if exc == "ok" and isinstance(r, list) and len(r) == 3:
+                            exc, gobj, lobj = r
+                        else:
+                            exc, gobj, lobj = "exc:" + exc, None, None
+                    else:
+                        gobj, lobj = g.get("_g17"), g.get("_l17")
+
+                    def fresh(d, base):
+                        return {k: v for k, v in d.items() if k not in base and k not in HELPERS}
+                    pl = {"script": fresh(new, ()), "g": {}, "l": {}}
+                    if isinstance(gobj, dict) and gobj is not g:
+                        pl["g"] = fresh(gobj, before if ns["g"] == "copy" else ())
+                    if isinstance(lobj, dict) and lobj is not g and lobj is not gobj:
+                        pl["l"] = fresh(lobj, ())
+                    new = {}
+                    for q in ("script", "g", "l"):
+                        new.update(pl[q])
+                    places = {q: sorted(pl[q]) for q in pl}
+                elif cs["via"] in ("func", "compiled"):
                     r = new.get("_r")
                     leak = sorted(k for k in new if k not in ("_f", "_r") and not (k.startswith("__") and k.endswith("__")))
                     if exc == "ok" and isinstance(r, list) and len(r) == 2:
@@ -355,9 +472,13 @@ def work(job):
                         new = {k: v for k, v in r[1].items() if k != "_e"}
                     else:
                         new = {}
+                    places = None
                 else:
                     new.pop("_v", None)
+                    places = None
                 bound = sorted(set(new) | set(leak))
+                if places is None:
+                    places = {"script": bound, "g": [], "l": []}
                 vals = []
                 for c in cs["clauses"]:
                     nm = sorted(new)[:6] if c["name"] == "*" else [c["as"] if c["as"] != "-" else (c["name"] if cs["form"] == "from" else c["mod"])]
@@ -366,7 +487,7 @@ def work(job):
                             vals.append({"n": n, "c": classify(cs, c, n, new[n])})
                     if cs["form"] == "import" and c["as"] == "-" and len(c["parts"]) > 1 and c["parts"][0] in new:
                         vals.append({"n": c["parts"][0], "c": classify(cs, c, c["parts"][0], new[c["parts"][0]])})
-                cs["obs"] = {"exc": exc, "bound": bound, "vals": vals}
+                cs["obs"] = {"exc": exc, "bound": bound, "vals": vals, "places": places}
                 cs["truth"] = [truth_for(cs, c) for c in cs["clauses"]]
                 cs["src"] = src
                 if any(t.pop("star_unavailable", False) for t in cs["truth"]):
@@ -375,7 +496,8 @@ def work(job):
             elif cs["kind"] == "builtin":
                 gc, a = new_ctx("file")
                 n = cs["name"]
-                src = {"module": "_r = %s" % n,
+                src = ns_builtin_src(cs) if cs["scope"] in NS_SCOPES else {
+                       "module": "_r = %s" % n,
                        "func": "def _f():\n    return %s\n_r = _f()" % n,
                        "class": "class _C:\n    v = %s\n_r = _C.v" % n,
                        "listcomp": "_r = [%s for _ in [1]][0]" % n,
@@ -400,10 +522,17 @@ def work(job):
                 try:
                     a.parse(src)
                     await a.eval()
-                    if "_r" not in gc.global_sym_table:
+                    tab = gc.global_sym_table
+                    if cs["scope"] == "exec-ns":
+                        # the assignment in the executed text lands in one of the mappings passed
+                        for d in (tab.get("_l17"), tab.get("_g17")):
+                            if isinstance(d, dict) and "_r" in d:
+                                tab = d
+                                break
+                    if "_r" not in tab:
                         o = "exc:unset"
                     else:
-                        v = gc.global_sym_table["_r"]
+                        v = tab["_r"]
                         o = "builtin" if v is getattr(builtins, n, object()) else "replacement"
                 except NameError:
                     o = "NameError"
@@ -430,25 +559,49 @@ def work(job):
             finally:
                 sys.stdout = real_out
                 root.setLevel(logging.INFO)
-            text = fake_out.getvalue()
-            for where, func in (("module", "-"), ("trigger", "trig17"), ("service", "svc17"), ("helper-of-trigger", "trig17"),
-                                ("global-decl", "trig17")):
-                for fn in ("print", "log.debug", "log.info", "log.warning", "log.error"):
+            out_lines = {ln.strip() for ln in fake_out.getvalue().splitlines()}
+            got = {}
+            for (n, _l, m) in w.logs:
+                got.setdefault(m.strip(), []).append(n)
+            for where, func in LOG_WHERES + (("global-decl", "trig17"),):
+                for fn in LOG_FNS:
                     if where == "global-decl" and fn != "print":
                         continue
-                    mk_ = "MK17-%s-%s" % (where, fn)
-                    loggers = sorted(n for (n, _l, m) in w.logs if m.strip() == mk_)
-                    out.append({"kind": "log", "id": "L-%s-%s-%s" % (job["sub"], where, fn), "fn": fn, "where": where, "ctxname": "file.logs17",
-                                "func": func, "loggers": loggers, "stdout": mk_ in text, "sub": job["sub"]})
+                    for via, ns in LOG_ROUTES:
+                        if where == "global-decl" and via != "direct":
+                            continue
+                        mk_ = log_marker(where, fn, via, ns)
+                        out.append({"kind": "log", "id": "L-%s-%s" % (job["sub"], mk_), "fn": fn, "where": where, "via": via, "ns": ns,
+                                    "ctxname": "file.logs17", "func": func, "loggers": sorted(got.get(mk_, [])), "stdout": mk_ in out_lines,
+                                    "sub": job["sub"]})
 
     world.run(dict(SHADOW_FILES), body, legacy=job.get("legacy", False), realfs=True, allow_all_imports=job["allow_all"],
               capture_logs=bool(job.get("logs")))
     return out
 
 
+LOG_FNS = ("print", "log.debug", "log.info", "log.warning", "log.error")
+LOG_WHERES = (("module", "-"), ("trigger", "trig17"), ("service", "svc17"), ("helper-of-trigger", "trig17"))
+# the call written directly, or inside text given to exec / eval / eval(exec) with every namespace-argument form
+LOG_ROUTES = [("direct", NS_NONE)] + [(via, ns) for via in ("exec", "eval", "evalexec") for ns in NS_FORMS]
+
+
+def log_marker(where, fn, via="direct", ns=NS_NONE):
+    if via == "direct":
+        return "MK17-%s-%s" % (where, fn)
+    return "MR17-%s-%s-%s-%s-%s" % (where, fn, via, ns["g"], ns["l"])
+
+
 def _log_lines(where):
-    return "\n".join("%s%s('MK17-%s-%s')" % ("    " if where != "module" else "", fn, where, fn)
-                     for fn in ("print", "log.debug", "log.info", "log.warning", "log.error"))
+    ind = "    " if where != "module" else ""
+    lines = [ind + "%s('%s')" % (fn, log_marker(where, fn)) for fn in LOG_FNS]
+    # routed calls: each in its own try so that one failing route does not hide the others
+    for via, ns in LOG_ROUTES[1:]:
+        for fn in LOG_FNS:
+            call = "%s('%s')" % (fn, log_marker(where, fn, via, ns))
+            body = ns_lines("eval" if via != "exec" else "exec", "exec(%r)" % call if via == "evalexec" else call, ns, ind=ind + "    ")
+            lines += [ind + "try:"] + body + [ind + "except Exception:", ind + "    pass"]
+    return "\n".join(lines)
 
 
 LOG_SCRIPT = (_log_lines("module") + "\n\ndef helper17():\n" + _log_lines("helper-of-trigger") +
@@ -487,8 +640,10 @@ WHAT = {
     "compiled-native": "an import statement in a @pyscript_compile body is native Python: the rule is not applied",
     "compiled-native-builtins": "lambda / @pyscript_compile bodies are native Python: excluded builtins are plain names there",
     "excluded-builtin-reachable": "an excluded builtin is reachable as a plain name",
+    "context-function-unreachable": "the plain name print does not evaluate to the function bound to the script's context",
     "not-on-the-scripts-logger": "print / log.* did not write (only) to the script's logger",
     "writes-to-stdout": "print wrote to the process's stdout",
+    "bound-in-wrong-namespace": "an import through eval / exec with namespace arguments bound its names in another mapping than the call designates",
 }
 
 
@@ -507,6 +662,17 @@ def validate(ctx, cases, allow, label):
     return res
 
 
+class _Merged:
+    def __init__(self, parts):
+        self.rejects = [r for p in parts for r in p.rejects]
+
+
+def validate_split(ctx, cases, allow, label, k):
+    """the acceptor visits the cases one after the other: k batches in parallel (one TLC each)"""
+    k = max(1, min(k, len(cases) // 500 or 1))
+    return _Merged(parallel([(lambda j=j: validate(ctx, cases[j::k], allow, "%s%d" % (label, j))) for j in range(k)], max_workers=k))
+
+
 def report(ctx, cases, res):
     byid = {c["id"]: c for c in cases}
     for rj in res.rejects:
@@ -515,12 +681,23 @@ def report(ctx, cases, res):
         if c["kind"] == "import":
             sig["form"] = form_name(c)
             sig["via"] = c["via"]
+            if c.get("ns", NS_NONE)["g"] != "-":
+                sig["ns"] = ns_arity(c["ns"])
         elif c["kind"] == "builtin":
             sig["scope"] = c["scope"]
             sig["name"] = c["name"]
-        else:
+            if "ns" in c:
+                sig["ns"] = ns_arity(c["ns"])
+        elif c.get("via", "direct") == "direct":
             sig["fn"] = c["fn"]
             sig["where"] = c["where"]
+            sig["subsystem"] = c["sub"]
+        else:
+            # routed calls: the failing input class is (function kind, route, namespace arguments); where the call
+            # stands (module level, trigger, service, helper) and the exact form are in the case
+            sig["fn"] = "print" if c["fn"] == "print" else "log.*"
+            sig["via"] = c["via"]
+            sig["ns"] = ns_arity(c["ns"])
             sig["subsystem"] = c["sub"]
         ctx.report(sig, WHAT.get(rj["why"], rj["why"]), {"case": c, "expected": rj.get("exp")})
 
@@ -531,9 +708,58 @@ def selftest(ctx, cases, rejected, allow):
     def add(c, tag):
         c["id"] = "corrupt-%s/%s" % (tag, c["id"])
         bad.append(c)
-    n = {"a": 0, "b": 0, "c": 0, "d": 0, "e": 0, "f": 0}
+    n = {"a": 0, "b": 0, "c": 0, "d": 0, "e": 0, "f": 0, "g": 0, "h": 0, "i": 0, "j": 0}
     for c in cases:
         if c["id"] in rejected:
+            continue
+        # round 3: recordings of the namespace-argument routes
+        if c["kind"] == "import" and c["ns"]["g"] != "-" and c["via"] != "eval":
+            if c["obs"]["exc"] == "ok" and c["obs"]["bound"] and n["g"] < 12:
+                here = [q for q in ("script", "g", "l") if c["obs"]["places"][q]][0]
+                for other in ("script", "g", "l"):
+                    if other != here:
+                        c2 = copy.deepcopy(c)
+                        c2["obs"]["places"][other], c2["obs"]["places"][here] = c2["obs"]["places"][here], []
+                        add(c2, "ns-bound-in-" + other)
+                c3 = copy.deepcopy(c)
+                c3["obs"]["places"]["script" if here != "script" else "g"] = list(c3["obs"]["places"][here])
+                add(c3, "ns-bound-twice")
+                n["g"] += 1
+                continue
+            if c["obs"]["exc"] == "ModuleNotFoundError" and not c["obs"]["bound"] and n["h"] < 12:
+                for q in ("script", "g", "l"):
+                    c2 = copy.deepcopy(c)
+                    c2["obs"]["places"][q] = ["leftover"]
+                    c2["obs"]["bound"] = ["leftover"]
+                    add(c2, "ns-refused-binds-in-" + q)
+                c3 = copy.deepcopy(c)
+                c3["obs"]["exc"] = "ok"
+                c3["obs"]["bound"] = [c["clauses"][0]["mod"]]
+                c3["obs"]["places"]["g"] = [c["clauses"][0]["mod"]]
+                add(c3, "ns-refused-imported")
+                n["h"] += 1
+                continue
+        if c["kind"] == "builtin" and "ns" in c and c["name"] in EXCLUDED and c["out"] in ("NameError", "replacement") and n["i"] < 12:
+            c2 = copy.deepcopy(c)
+            c2["out"] = "builtin"
+            add(c2, "ns-builtin-reachable")
+            if c["name"] == "print":
+                c3 = copy.deepcopy(c)
+                c3["out"] = "NameError"
+                add(c3, "ns-print-lost")
+            n["i"] += 1
+            continue
+        if c["kind"] == "log" and c["via"] != "direct" and n["j"] < 40 and (n["j"] < 20 or c["ns"]["g"] != "-"):
+            c2 = copy.deepcopy(c)
+            c2["loggers"] = []                       # the call raised NameError / nothing was logged
+            add(c2, "ns-not-logged")
+            c3 = copy.deepcopy(c)
+            c3["stdout"] = True
+            add(c3, "ns-stdout")
+            c4 = copy.deepcopy(c)
+            c4["loggers"] = c4["loggers"] + ["custom_components.pyscript.eval"]
+            add(c4, "ns-second-logger")
+            n["j"] += 1
             continue
         if c["kind"] == "import" and c["obs"]["exc"] == "ModuleNotFoundError" and c["via"] != "eval" and n["a"] < 12:
             c2 = copy.deepcopy(c)
@@ -578,6 +804,10 @@ def selftest(ctx, cases, rejected, allow):
             n["e"] += 1
     if len(bad) < 20:
         raise MachineryFailure("selftest: too few recordings to corrupt (%d)" % len(bad))
+    for key, what in (("g", "imports bound through namespace arguments"), ("h", "imports refused through namespace arguments"),
+                      ("i", "excluded names through namespace arguments"), ("j", "routed print / log calls")):
+        if n[key] < 4:
+            raise MachineryFailure("selftest: too few recordings of the kind '%s' to corrupt (%d)" % (what, n[key]))
     res = validate(ctx, bad, allow, "corrupt")
     got = {r["id"] for r in res.rejects}
     missed = [c["id"] for c in bad if c["id"] not in got]
@@ -586,22 +816,30 @@ def selftest(ctx, cases, rejected, allow):
     ctx.cov["selftest_corruptions_rejected"] = len(bad)
 
 
-MODEL_MUTANTS = ("prefix", "skip-dotted", "bind-first")
-WITNESSES = ("w_refused", "w_shadow", "w_stub", "w_partial")
+MODEL_MUTANTS = ("prefix", "skip-dotted", "bind-first", "bind-globals")
+WITNESSES = ("w_refused", "w_shadow", "w_stub", "w_partial", "w_ns_g", "w_ns_l", "w_ns_script", "w_ns_refused", "w_ns_lost")
+NAME_INVS = ["CtxBoundEverywhere", "ExcludedNeverBuiltin", "MechanismMatchesRule", "NoPhantomUser", "OrdinaryBuiltinKept"]
+NAME_MUTANTS = ("ns-drops-ctx", "ns-native-builtins", "nested-drops-ctx")
+NAME_WITNESSES = ("w_ctx_ns", "w_ctx_nested", "w_excl_ns", "w_user", "w_user_loses")
 
 
 def model(ctx):
     """(M) Imports.tla with its invariants and the outcome table (whose w_* columns are the witnesses);
-    thorough tier: the three code mutants injected into the model must violate an invariant."""
-    def cfg(name, mutant, invs):
-        p = os.path.join(ctx.scratch, "Imports_%s.cfg" % name)
+    thorough tier: the code mutants injected into the model must violate an invariant.
+    (M2) ImportNames.tla: plain-name resolution through the eval / exec routes x namespace arguments; its three
+    mutants are run in both tiers (seconds)."""
+    def cfg(spec, name, mutant, invs):
+        p = os.path.join(ctx.scratch, "%s_%s.cfg" % (spec, name))
         open(p, "w").write("SPECIFICATION Spec\nCONSTANT Mutant = \"%s\"\n%s\nCHECK_DEADLOCK FALSE\n" % (
             mutant, "\n".join("INVARIANT " + i for i in invs)))
         return p
-    main_invs = ["RefusedBindsNothing", "AllowedIffRule", "StubsIgnored", "ShadowResolvesToPyscript"]
-    thunks = [lambda: tlc.run("Imports", cfg("main", "", main_invs + ["Table"]), ctx.scratch, workers=min(4, NPROC), timeout=1800)]
+    main_invs = ["RefusedBindsNothing", "AllowedIffRule", "StubsIgnored", "ShadowResolvesToPyscript", "BoundWhereDesignated"]
+    thunks = [lambda: tlc.run("Imports", cfg("Imports", "main", "", main_invs + ["Table"]), ctx.scratch, workers=max(1, min(4, NPROC // 2)), timeout=1800),
+              lambda: tlc.run("ImportNames", cfg("ImportNames", "main", "", NAME_INVS + ["Table"]), ctx.scratch, workers=1, timeout=900)]
+    thunks += [(lambda m=m: tlc.run("ImportNames", cfg("ImportNames", "mut_" + m, m, NAME_INVS), ctx.scratch, workers=1, timeout=900))
+               for m in NAME_MUTANTS]
     if not ctx.quick:
-        thunks += [(lambda m=m: tlc.run("Imports", cfg("mut_" + m, m, main_invs), ctx.scratch, workers=1, timeout=1800))
+        thunks += [(lambda m=m: tlc.run("Imports", cfg("Imports", "mut_" + m, m, main_invs), ctx.scratch, workers=1, timeout=1800))
                    for m in MODEL_MUTANTS]
     return thunks
 
@@ -636,6 +874,15 @@ def main(ctx):
     bcases = [{"kind": "builtin", "id": "B-%s-%s" % (n, s), "name": n, "scope": s} for n in bnames
               for s in (SCOPES if n in wide or not ctx.quick else ("module", "func"))
               if n.isidentifier() and n not in ("None", "True", "False", "__debug__")]
+    # the same names evaluated by text that eval / exec runs with namespace arguments (module level and inside a function):
+    # excluded names with every argument form, the neighbours on a rotating quarter
+    k = 0
+    for n in sorted(wide):
+        for sc in NS_SCOPES:
+            for j, nsf in enumerate(NS_EXPLICIT):
+                if n in EXCLUDED or not ctx.quick or (j + k) % 4 == 0:
+                    bcases.append({"kind": "builtin", "id": "B-%s-%s-%s" % (n, sc, ns_key(nsf)), "name": n, "scope": sc, "ns": nsf})
+            k += 1
     nw = 12
     jobs = []
     for k in range(nw):
@@ -660,15 +907,30 @@ def main(ctx):
             raise MachineryFailure("witness %s never occurs: the model does not exercise the case" % wname)
     ctx.cov["witnesses_seen"] = list(WITNESSES)
     ctx.cov["expected_outcome_table_sample"] = [r for r in mres.infos if r.get("w_partial")][:1] + [r for r in mres.infos if r.get("w_shadow")][:1]
+    nres = outs[1]
+    if not nres.ok:
+        ctx.report({"clause": "model:" + nres.violated}, "ImportNames.tla violates %s" % nres.violated, {"cex": nres.cex})
+    ctx.add_tlc(nres, "ImportNames(names x routes x namespace arguments x user definitions)")
+    ctx.cov["name_resolution_table_rows"] = len(nres.infos)
+    for wname in NAME_WITNESSES:
+        if nres.ok and not any(row.get(wname) for row in nres.infos):
+            raise MachineryFailure("witness %s never occurs: ImportNames does not exercise the case" % wname)
+    ctx.cov["witnesses_seen"] += list(NAME_WITNESSES)
+    for mname, wres in zip(NAME_MUTANTS, outs[2:2 + len(NAME_MUTANTS)]):
+        if wres.ok:
+            raise MachineryFailure("ImportNames mutant %s violates no invariant" % mname)
+        ctx.add_tlc(wres)
+        ctx.cov.setdefault("name_model_mutants", {})[mname] = wres.violated
     if not ctx.quick:
-        for mname, wres in zip(MODEL_MUTANTS, outs[1:1 + len(MODEL_MUTANTS)]):
+        base = 2 + len(NAME_MUTANTS)
+        for mname, wres in zip(MODEL_MUTANTS, outs[base:base + len(MODEL_MUTANTS)]):
             if wres.ok:
                 raise MachineryFailure("model mutant %s violates no invariant" % mname)
             ctx.add_tlc(wres)
-        ctx.cov["model_mutants_violating_invariants"] = len(MODEL_MUTANTS)
+        ctx.cov["model_mutants_violating_invariants"] = len(MODEL_MUTANTS) + len(NAME_MUTANTS)
     cases = [x for r in outs[-1] for x in r]
     t0 = time.time()
-    res = validate(ctx, cases, allow, "main")
+    res = validate_split(ctx, cases, allow, "main", min(3, NPROC))
     ctx.cov["phase_wall_s"]["acceptor"] = round(time.time() - t0, 1)
     ctx.cov["traces_validated_against_impl"] += len(cases)
     report(ctx, cases, res)
@@ -688,6 +950,34 @@ def main(ctx):
     for c in imp:
         ctx.cov["per_form"][form_name(c)] = ctx.cov["per_form"].get(form_name(c), 0) + 1
         ctx.cov["per_route"][c["via"]] = ctx.cov["per_route"].get(c["via"], 0) + 1
+    # namespace-argument routes: every (route, argument form) pair must have met a refused and a binding statement
+    nsc = {}
+    for c in imp:
+        if c["ns"]["g"] != "-":
+            e = nsc.setdefault("%s %s" % (c["via"], ns_key(c["ns"])), {"n": 0, "refused": 0, "ok": 0, "bound": 0})
+            e["n"] += 1
+            e["refused"] += c["obs"]["exc"] == "ModuleNotFoundError"
+            e["ok"] += c["obs"]["exc"] == "ok"
+            e["bound"] += bool(c["obs"]["bound"])
+    ctx.cov["namespace_argument_statements"] = sum(e["n"] for e in nsc.values())
+    ctx.cov["namespace_argument_pairs"] = {"pairs": len(nsc), "min_refused": min([e["refused"] for k, e in nsc.items() if not k.startswith("eval ")] or [0]),
+                                           "min_ok": min([e["ok"] for k, e in nsc.items() if not k.startswith("eval ")] or [0]),
+                                           "min_bound_exec_routes": min([e["bound"] for k, e in nsc.items() if k.startswith(("exec ", "funcexec "))] or [0])}
+    ctx.cov["bound_by_place"] = {q: sum(1 for c in imp if c["ns"]["g"] != "-" and c["obs"]["places"][q]) for q in ("script", "g", "l")}
+    ctx.cov["builtin_names_through_namespace_arguments"] = sum(1 for c in cases if c["kind"] == "builtin" and "ns" in c)
+    ctx.cov["routed_print_log_calls"] = sum(1 for c in cases if c["kind"] == "log" and c["via"] != "direct")
+    if not ctx.violations:
+        want = {"%s %s" % (v, ns_key(nsf)) for v in NS_VIAS for nsf in NS_EXPLICIT}
+        # (eval(exec(..)) with separate locals may lose the names - ImportCore!DefaultLocalsOpen - so "bound" is required
+        # of the exec routes only)
+        thin = sorted(k for k in want if k not in nsc or nsc[k]["refused"] < 1 or nsc[k]["ok"] < 1
+                      or (not k.startswith("evalexec") and nsc[k]["bound"] < 1))
+        if thin:
+            raise MachineryFailure("vacuous coverage of namespace-argument routes: %s" % thin[:5])
+        if min(ctx.cov["bound_by_place"].values()) < 20:
+            raise MachineryFailure("vacuous coverage: bound_by_place %s" % ctx.cov["bound_by_place"])
+        if ctx.cov["routed_print_log_calls"] < 2 * len(LOG_WHERES) * (len(LOG_ROUTES) - 1) * len(LOG_FNS):
+            raise MachineryFailure("routed print / log calls missing: %d" % ctx.cov["routed_print_log_calls"])
     ctx.cov["shadowing_statements"] = sum(1 for c in imp if any(cl["mod"] in PYS for cl in c["clauses"]))
     ctx.cov["bound_something"] = sum(1 for c in imp if c["obs"]["bound"])
     ctx.cov["skip_list_allow_all"] = sorted(SKIP_IMPORT)
